@@ -74,6 +74,17 @@ def m_incomparable_delays(v: dict) -> bool:
     return not le and not ge
 
 
+def m_async_substep_deadlock(v: dict) -> bool:
+    """C05: exact deadlock in a scenario where an async_requests connection starts at a simulator that
+    performs sub-steps (it has an incoming weak connection) and shares a group with the agent, and the
+    very same scenario under the same schedule policy completes once the async_requests flags are
+    removed (the wait for async successors includes the sub-time and closes a wait cycle through a
+    simulator outside the group)."""
+    return (v.get("kind") == "run_failed" and v.get("type") == "Deadlock"
+            and v.get("async_source_with_substeps_in_shared_group") is True
+            and v.get("completes_without_async_flags") is True)
+
+
 def m_rt_consumer_late(v: dict) -> bool:
     """C17: 'too slow' is reported for a simulator that has a zero-delay predecessor while every
     simulator answers instantly (the predecessor's progress is capped by the real-time cap), for every
@@ -87,6 +98,7 @@ def m_rt_consumer_late(v: dict) -> bool:
 
 
 MECHANISMS = {
+    "async_substep_deadlock": m_async_substep_deadlock,
     "rt_consumer_late": m_rt_consumer_late,
     "subtime_data_path": m_subtime_data_path,
     "subtime_divergence": m_subtime_divergence,
